@@ -409,8 +409,7 @@ def random_schedule(rng: random.Random):
                 n = rng.randint(0, 2)
                 jobs.append({"e": QID, "t": t, "ds": [3 * rng.choice((0, 1, 2)) for _ in range(n)],
                              "em": [rng.randint(0, 1) for _ in range(n + 1)], "g": 1})
-    rng.shuffle(jobs)
-    jobs.sort(key=lambda J: 0)                              # creation order is independent of time order
+    rng.shuffle(jobs)                                       # creation order is independent of time order
     pairs = set()
     for w in wins:
         if w["k"] == "part":
